@@ -509,26 +509,32 @@ func (t *Target) gnmiUpdate(n *pb.Notification) (*ctree.Leaf, error) {
 		suffix = nil
 	}
 	path := joinPrefixAndPath(n.Prefix, suffix)
+	if len(path) == 0 {
+		return nil, errors.New("update with an empty path")
+	}
 	if path[0] == metadata.Root {
+		if len(path) < 2 {
+			return nil, fmt.Errorf("invalid metadata path %q", path)
+		}
 		realData = false
 		u := n.Update[0]
 		switch path[1] {
 		case metadata.Sync:
 			var ok bool
-			tv, ok := u.Val.Value.(*pb.TypedValue_BoolVal)
+			tv, ok := u.GetVal().GetValue().(*pb.TypedValue_BoolVal)
 			if !ok {
 				return nil, fmt.Errorf("%v : has value %v of type %T, expected boolean", metadata.Path(metadata.Sync), u.Val, u.Val)
 			}
 			t.sync = tv.BoolVal
 			t.meta.SetBool(metadata.Sync, t.sync)
 		case metadata.Connected:
-			tv, ok := u.Val.Value.(*pb.TypedValue_BoolVal)
+			tv, ok := u.GetVal().GetValue().(*pb.TypedValue_BoolVal)
 			if !ok {
 				return nil, fmt.Errorf("%v : has value %v of type %T, expected boolean", metadata.Path(metadata.Connected), u.Val, u.Val)
 			}
 			t.meta.SetBool(metadata.Connected, tv.BoolVal)
 		case metadata.ConnectedAddr, metadata.ConnectError:
-			tv, ok := u.Val.Value.(*pb.TypedValue_StringVal)
+			tv, ok := u.GetVal().GetValue().(*pb.TypedValue_StringVal)
 			if !ok {
 				return nil, fmt.Errorf("%v : has value %v of type %T, expected string", metadata.Path(path[1]), u.Val, u.Val)
 			}
@@ -634,7 +640,7 @@ func toDeleteNotification(n *pb.Notification, timestamp int64) *pb.Notification 
 
 func (t *Target) gnmiRemove(n *pb.Notification) []*ctree.Leaf {
 	path := joinPrefixAndPath(n.Prefix, n.Delete[0])
-	if path[0] == metadata.Root {
+	if len(path) > 1 && path[0] == metadata.Root {
 		t.meta.ResetEntry(path[1])
 	}
 	var leaves []*ctree.Leaf
@@ -706,6 +712,17 @@ func (t *Target) updateMeta(clients func(*ctree.Leaf)) {
 	t.generateMetaUpdates(clients)
 }
 
+// metaVal returns the value stored in a metadata leaf, nil if the leaf is
+// missing or does not hold an update (a target may have written anything at
+// a metadata path).
+func metaVal(leaf interface{}) *pb.TypedValue {
+	n, ok := leaf.(*pb.Notification)
+	if !ok || len(n.GetUpdate()) == 0 {
+		return nil
+	}
+	return n.GetUpdate()[0].GetVal()
+}
+
 func (t *Target) generateMetaUpdates(clients func(*ctree.Leaf)) {
 	for value := range metadata.TargetBoolValues {
 		if t.excludedMeta.Contains(value) {
@@ -717,7 +734,7 @@ func (t *Target) generateMetaUpdates(clients func(*ctree.Leaf)) {
 		}
 		path := metadata.Path(value)
 		prev := t.t.GetLeafValue(path)
-		if prev == nil || prev.(*pb.Notification).Update[0].Val.Value.(*pb.TypedValue_BoolVal).BoolVal != v {
+		if tv, ok := metaVal(prev).GetValue().(*pb.TypedValue_BoolVal); !ok || tv.BoolVal != v {
 			noti := metaNotiBool(t.name, value, v)
 			if n, _ := t.gnmiUpdate(noti); n != nil {
 				if clients != nil {
@@ -737,7 +754,7 @@ func (t *Target) generateMetaUpdates(clients func(*ctree.Leaf)) {
 		}
 		path := metadata.Path(value)
 		prev := t.t.GetLeafValue(path)
-		if prev == nil || prev.(*pb.Notification).Update[0].Val.Value.(*pb.TypedValue_IntVal).IntVal != v {
+		if tv, ok := metaVal(prev).GetValue().(*pb.TypedValue_IntVal); !ok || tv.IntVal != v {
 			noti := metaNotiInt(t.name, value, v)
 			if n, _ := t.gnmiUpdate(noti); n != nil {
 				if clients != nil {
@@ -757,7 +774,7 @@ func (t *Target) generateMetaUpdates(clients func(*ctree.Leaf)) {
 		}
 		path := metadata.Path(value)
 		prev := t.t.GetLeafValue(path)
-		if prev == nil || prev.(*pb.Notification).Update[0].Val.Value.(*pb.TypedValue_StringVal).StringVal != v {
+		if tv, ok := metaVal(prev).GetValue().(*pb.TypedValue_StringVal); !ok || tv.StringVal != v {
 			noti := metaNotiStr(t.name, value, v)
 			if n, _ := t.gnmiUpdate(noti); n != nil {
 				if clients != nil {
